@@ -38,6 +38,10 @@ PROPCFG = {}
 VARIANT_FLAGS = {
     "plain": [],
     "race": ["-race"],
+    # the race detector over the code the production (!race) build runs: go-json compiles different
+    # cache-publication code under the race tag, so the ordinary race build never executes the
+    # unsynchronised slot stores of compiler_norace.go / compile_norace.go
+    "raceprod": ["-race"],
     "checkptr": ["-gcflags=all=-d=checkptr"],
     "asan": ["-asan"],
 }
@@ -93,6 +97,27 @@ def build_worker(scratch, variant):
         open(mf, "w").write(mod)
         shutil.copy(os.path.join(HARNESS, "go.sum"), os.path.join(scratch, "alt.sum"))
         cmd += ["-modfile", mf]
+    if base == "raceprod":
+        repo = alt or "/repo"
+        repl = {}
+        for rel in ("internal/encoder/compiler_norace.go", "internal/encoder/compiler_race.go", "internal/decoder/compile_norace.go", "internal/decoder/compile_race.go"):
+            src = open(os.path.join(repo, rel)).read()
+            if "_norace" in rel:
+                src = src.replace("//go:build !race", "//go:build race").replace("// +build !race", "// +build race")
+            else:
+                src = src.replace("//go:build race", "//go:build !race").replace("// +build race", "// +build !race")
+            dst = os.path.join(scratch, "raceprod_" + rel.replace("/", "_"))
+            open(dst, "w").write(src)
+            repl[os.path.join(repo, rel)] = dst
+        ovs = [a for a in cmd if a.endswith(".json") and "overlay_" in a]
+        if ovs:
+            j = json.load(open(ovs[0]))
+            j["Replace"].update(repl)
+            json.dump(j, open(ovs[0], "w"))
+        else:
+            ov = os.path.join(scratch, "overlay_raceprod.json")
+            json.dump({"Replace": repl}, open(ov, "w"))
+            cmd += ["-overlay", ov]
     cmd += ["-o", out, "./cmd/vworker"]
     r = subprocess.run(cmd, cwd=HARNESS, env=env, capture_output=True, text=True)
     if r.returncode != 0:
@@ -340,7 +365,7 @@ def common_gojson_frame(a, b):
 
 def worker_env(prop, variant, d):
     env = {"GODEBUG": "invalidptr=1", "GOTRACEBACK": "all"}
-    if base_variant(variant) == "race":
+    if base_variant(variant) in ("race", "raceprod"):
         env["GORACE"] = "halt_on_error=0 exitcode=0 log_path=%s/race history_size=3" % d
     if base_variant(variant) == "asan":
         env["ASAN_OPTIONS"] = "detect_leaks=0:abort_on_error=0:halt_on_error=1"
@@ -516,7 +541,7 @@ def run_check(prop, tier, seed, scratch, t0):
                     merged["viol"].append(v)
                 merged["inconcl"] += ["[%s batch %d] %s" % (variant, r["e"], x) for x in (r.get("inconclusive") or [])]
         merged["per_variant"][variant] = {"evaluations": vev, "batches": nb, "shards": ns}
-        if base_variant(variant) == "race":
+        if base_variant(variant) in ("race", "raceprod"):
             blocks = race_reports(scratch)
             sigs = {}
             for b in blocks:
@@ -524,7 +549,7 @@ def run_check(prop, tier, seed, scratch, t0):
             merged["obs"]["race_reports_raw"] = len(blocks)
             merged["obs"]["race_reports_distinct"] = len(sigs)
             for sg, bs in sigs.items():
-                merged["viol"].append({"monitor": "race-detector", "entry": "race", "kind": "race", "ctx": sg,
+                merged["viol"].append({"monitor": "race-detector", "entry": base_variant(variant), "kind": "race", "ctx": sg,
                                        "detail": "%d report(s); first:%s" % (len(bs), bs[0][:1500]), "variant": "race", "idx": -1, "sub": -1})
 
     # ---- verdict
